@@ -19,6 +19,7 @@ pub mod c13;
 pub mod chains;
 pub mod c15;
 pub mod c16;
+pub mod c17;
 pub mod c18;
 pub mod c19;
 pub mod c20;
@@ -50,6 +51,7 @@ pub const PROPS: &[Prop] = &[
     Prop { id: "C14", run: c13::run14, replay: c13::replay14, leg: None },
     Prop { id: "C15", run: c15::run, replay: c15::replay, leg: None },
     Prop { id: "C16", run: c16::run, replay: c16::replay, leg: None },
+    Prop { id: "C17", run: c17::run, replay: c17::replay, leg: None },
     Prop { id: "C18", run: c18::run, replay: c18::replay, leg: None },
     Prop { id: "C19", run: c19::run, replay: c19::replay, leg: Some(c19::leg) },
     Prop { id: "C20", run: c20::run, replay: c20::replay, leg: None },
